@@ -5,7 +5,12 @@
 //! base statements per run, each spelled differently every time it is issued — whitespace
 //! outside literals, whitespace **inside** string literals, block/line comments (including a
 //! line comment terminated by a newline in one spelling and by a space in another), keyword
-//! case, quote style, back-ticked identifiers.  The scheduler stream interleaves the clients;
+//! case, quote style, back-ticked identifiers.  Literals may carry escape sequences (escaped
+//! backslash at the very end of a literal, escaped quotes, the other quote kind unescaped) —
+//! fixed per run and per slot, so that near-duplicates share them and differ only in the
+//! whitespace inside a *later* literal.  Whitespace the grammar does not know (NBSP, FF, VT,
+//! U+2028, U+3000 …) appears between keywords, inside literals, and at the very start / very
+//! end of the text.  The scheduler stream interleaves the clients;
 //! the cache capacity is a knob (1, 2, 3, 1024) so eviction and re-insertion happen.
 //!
 //! Oracle (every call): `engine.execute*(s, storeA)` ≡ `parse_query(s)` + a fresh executor on
@@ -29,7 +34,7 @@ pub struct C03;
 
 /// String-literal families: members differ only in whitespace (or sit next to comment
 /// markers / quotes so that a lexer-unaware cache key gets them wrong).
-const FAMILIES: [&[&str]; 8] = [
+const FAMILIES: [&[&str]; 10] = [
     &["a b", "a  b", "a\tb", "a\nb", "a b ", " a b", "a   b"],
     &["x", "x ", " x", "x  "],
     &["p//q", "p //q", "p// q", "p //  q"],
@@ -38,12 +43,39 @@ const FAMILIES: [&[&str]; 8] = [
     &["say \\\"hi\\\" now", "say  \\\"hi\\\" now", "say \\\"hi\\\"  now"],
     &["", " ", "  "],
     &["x y", "X y", "x  y", "x Y"],
+    // whitespace the grammar does not know is ordinary content inside a literal
+    &["a b", "a\u{a0}b", "a\u{2003}b", "a \u{a0}b", "a  b"],
+    &["p q", "p  q", "p q\u{a0}", "\u{3000}p q", "p\tq"],
+];
+
+/// Escape decorations of a string slot: (prefix, suffix, whole).  `whole` = the literal is
+/// just prefix+suffix (no family member, so it is identical in every spelling); `¶` stands for
+/// the quote kind the literal is *not* delimited by (legal unescaped).  `escape_seq` of the
+/// grammar is a backslash followed by any character, so every entry is valid in both quote
+/// styles.  What a lexer-unaware scanner gets wrong: where the literal ends.
+const DECOR: [(&str, &str, bool); 16] = [
+    ("", "\\\\", false),         // 'a b\\'   ends in an escaped backslash
+    ("x", "\\\\", true),         // 'x\\'
+    ("", "\\\\", true),          // '\\'
+    ("", "\\\\\\\\", false), // 'a b\\\\' two escaped backslashes
+    ("\\\\", "", false),         // '\\a b'
+    ("", "\\'", false),            // 'a b\''
+    ("", "\\\"", false),          // 'a b\"'
+    ("\\'", "\\'", false),       // '\'a b\''
+    ("", "\\\\\\'", false),    // 'a b\\\''  escaped backslash, then escaped quote
+    ("\\\"", "\\\\", false),  // '\"a b\\'
+    ("¶", "", false),                // '"a b'
+    ("", "¶", false),                // 'a b"'
+    ("it¶s ", "", false),            // "it's a b"
+    ("¶", "\\\\", true),         // '"\\'
+    ("\\n", "", false),            // '\na b'
+    ("\\'¶", "¶\\\\", false),  // '\'"a b"\\'
 ];
 
 /// Base statements.  Tokens are separated by single blanks; `§n` is string slot n (all slots
 /// of one statement use the same family), `#` an integer slot.  ALL-CAPS words are keywords
 /// (their case is varied), everything else is copied.
-const READS: [&str; 12] = [
+const READS: [&str; 16] = [
     "RETURN §0 AS x",
     "RETURN §0",
     "RETURN §0 AS x , §1 AS y",
@@ -56,8 +88,12 @@ const READS: [&str; 12] = [
     "RETURN size ( §0 ) AS l",
     "MATCH ( n ) WHERE n . s IN [ §0 , §1 ] RETURN n",
     "MATCH ( n : a ) WHERE n . S = §0 RETURN n . k",
+    "RETURN §0 AS a , §1 AS b , §2 AS c",
+    "MATCH ( n : A ) WHERE n . s = §0 RETURN n . k , §1 AS t",
+    "RETURN §0 + §1 AS x",
+    "MATCH ( n : A ) WHERE n . t = §0 RETURN n . s , §1 AS u",
 ];
-const WRITES: [&str; 7] = [
+const WRITES: [&str; 9] = [
     "CREATE ( n : A { k : # , s : §0 } )",
     "MERGE ( n : A { s : §0 } )",
     "MATCH ( n : A ) WHERE n . s = §0 SET n . t = §1",
@@ -65,6 +101,8 @@ const WRITES: [&str; 7] = [
     "MATCH ( n : A { s : §0 } ) DETACH DELETE n",
     "MATCH ( n : A ) WHERE n . s = §0 REMOVE n . t",
     "CREATE ( n : a { k : # , S : §0 } )",
+    "CREATE ( n : A { k : # , t : §0 , s : §1 } )",
+    "MERGE ( n : A { t : §0 , s : §1 } )",
 ];
 
 #[derive(Clone)]
@@ -96,6 +134,9 @@ fn spell_kw(r: &mut Rng, kw: &str) -> String {
         _ => kw.chars().enumerate().map(|(i, c)| if i % 2 == 0 { c.to_ascii_lowercase() } else { c }).collect(),
     }
 }
+
+const EDGE_LEAD: [&str; 10] = ["\u{a0}", "\u{0c}", "\u{0b}", "\u{2028}", "\u{3000}", " \u{a0}", "\u{a0} ", "\n\u{0c}", "\u{85}", "\u{2003}\u{a0}"];
+const EDGE_TRAIL: [&str; 12] = ["\u{a0}", "\u{0c}", "\u{0b}", "\u{2028}", "\u{3000}", " \u{a0}", "\u{a0}\n", "\n\u{0c}", "\u{85}", ";\u{a0}", " ;\u{2029} ", "\u{1680}"];
 
 const COMMENT_BODIES: [&str; 6] = ["c", "c  d", "'", "\"", "it's", "x 'y  z'"];
 
@@ -143,16 +184,31 @@ fn spell(r: &mut Rng, b: &Base, ints: &mut u64, style: &Style) -> (String, Vec<S
     let mut swallowed = false;
     let quote = if style.mixed_quotes && r.chance(1, 3) { '"' } else { '\'' };
     let lead = if r.chance(1, 6) { [" ", "\n", "  ", "/* h */ "][r.usize_below(4)] } else { "" };
+    // whitespace the grammar does not know at the very start of the text (alone or next to
+    // ordinary padding): a fresh parse refuses it, `str::trim` would strip it
+    let lead = if style.exotic_edge && r.chance(1, 5) { EDGE_LEAD[r.usize_below(EDGE_LEAD.len())] } else { lead };
     out.push_str(lead);
     let mut prev_wordy = false;
     for (i, t) in toks.iter().enumerate() {
         let text: String = if let Some(n) = t.strip_prefix('§') {
             let slot: usize = n.parse().unwrap_or(0);
-            // slot 0 and 1 draw independently from the family
-            let _ = slot;
+            // the slots draw independently from the family
             let content = fam[(style.fam_lo + r.usize_below(style.fam_n.max(1))) % fam.len()];
             // the families escape both quote kinds where they use one, so any quote works
-            format!("{quote}{content}{quote}")
+            let quote = match style.slot_quotes.get(slot) {
+                Some(1) => '\'',
+                Some(2) => '"',
+                _ => quote,
+            };
+            let other = if quote == '"' { "'" } else { "\"" };
+            match style.decor.get(slot).copied().unwrap_or(0) {
+                0 => format!("{quote}{content}{quote}"),
+                d => {
+                    let (pre, suf, whole) = DECOR[(d - 1) % DECOR.len()];
+                    let body = if whole { format!("{pre}{suf}") } else { format!("{pre}{content}{suf}") };
+                    format!("{quote}{}{quote}", body.replace('¶', other))
+                }
+            }
         } else if *t == "#" {
             *ints += 1;
             if style.small_ints {
@@ -210,7 +266,10 @@ fn spell(r: &mut Rng, b: &Base, ints: &mut u64, style: &Style) -> (String, Vec<S
         }
         prev_wordy = text.chars().last().map(wordy).unwrap_or(false);
     }
-    if r.chance(1, 8) {
+    if style.exotic_edge && r.chance(1, 5) {
+        // … and at the very end
+        out.push_str(EDGE_TRAIL[r.usize_below(EDGE_TRAIL.len())]);
+    } else if r.chance(1, 8) {
         out.push_str([" ", "\n", " ;", ";", " /* t */", " // t"][r.usize_below(6)]);
     }
     (out, skel)
@@ -235,6 +294,12 @@ struct Style {
     /// with `opt_gaps`: which optional gaps carry whitespace in *every* spelling of the run (only the
     /// amount and kind vary), so that spellings differing inside an expression share a cache key
     opt_mask: u64,
+    /// non-grammar whitespace at the very start / very end of some spellings
+    exotic_edge: bool,
+    /// per string slot: 0 = plain, d > 0 = `DECOR[d-1]` in *every* spelling of the run
+    decor: Vec<usize>,
+    /// per string slot: 0 = the spelling's quote, 1 = always single, 2 = always double
+    slot_quotes: Vec<usize>,
 }
 
 // ------------------------------------------------------------------------------------
@@ -318,17 +383,93 @@ fn lex_meaning(text: &str, collapse_in_strings: bool) -> (String, bool) {
             i += 1;
         }
     }
-    (out.trim().to_string(), has_line_comment)
+    // only separators this function itself inserted: any other character at either end of the
+    // text (non-grammar whitespace included) is part of what the string means
+    (out.trim_matches(' ').to_string(), has_line_comment)
+}
+
+/// The string literals of a text in order (delimiters included), lexed like `lex_meaning`.
+fn lits(text: &str) -> Vec<String> {
+    let cs: Vec<char> = text.chars().collect();
+    let mut out = Vec::new();
+    let mut i = 0;
+    while i < cs.len() {
+        let c = cs[i];
+        if c == '/' && cs.get(i + 1) == Some(&'/') {
+            while i < cs.len() && cs[i] != '\n' {
+                i += 1;
+            }
+        } else if c == '/' && cs.get(i + 1) == Some(&'*') {
+            let mut j = i + 2;
+            let mut closed = None;
+            while j + 1 < cs.len() {
+                if cs[j] == '*' && cs[j + 1] == '/' {
+                    closed = Some(j + 2);
+                    break;
+                }
+                j += 1;
+            }
+            i = closed.unwrap_or(i + 1);
+        } else if c == '\'' || c == '"' {
+            let mut lit = String::new();
+            lit.push(c);
+            i += 1;
+            while i < cs.len() {
+                let d = cs[i];
+                lit.push(d);
+                i += 1;
+                if d == '\\' {
+                    if i < cs.len() {
+                        lit.push(cs[i]);
+                        i += 1;
+                    }
+                } else if d == c {
+                    break;
+                }
+            }
+            out.push(lit);
+        } else {
+            i += 1;
+        }
+    }
+    out
+}
+
+/// Does the first literal in which the two texts differ come after a literal that contains an
+/// escape sequence (so that a scanner which misjudges where *that* literal ends is inside-out
+/// by the time it reaches the differing one)?
+fn differs_after_escape(a: &str, b: &str) -> bool {
+    let (la, lb) = (lits(a), lits(b));
+    let first = la.iter().zip(lb.iter()).position(|(x, y)| x != y).unwrap_or(la.len().min(lb.len()));
+    la[..first].iter().any(|l| l.contains('\\'))
+}
+
+fn grammar_ws(c: char) -> bool {
+    matches!(c, ' ' | '\t' | '\r' | '\n')
+}
+
+/// Whitespace by `char::is_whitespace` that the grammar does not accept, at the very start or
+/// very end of the text (ordinary padding around it allowed).
+fn exotic_edge(text: &str) -> bool {
+    let t = text.trim_matches(grammar_ws);
+    let ex = |c: Option<char>| c.map(|c| c.is_whitespace() && !grammar_ws(c)).unwrap_or(false);
+    ex(t.chars().next()) || ex(t.chars().last())
 }
 
 /// How does `cur` differ from an earlier string with the same whitespace-collapsed text?
-fn collision_class(cur: &Value, earlier: &[&Value]) -> &'static str {
+///
+/// `earlier` = (event, did it parse).  With `hit` (the engine answered from the cache) only a
+/// predecessor that parsed can be the entry that answered: a text that does not parse is
+/// never inserted.
+fn collision_class(cur: &Value, earlier: &[(&Value, bool)], hit: bool) -> &'static str {
     let text = s(cur, "s");
     let key = collapse(text);
     let exotic = |x: &str| x.chars().any(|c| c.is_whitespace() && !matches!(c, ' ' | '\t' | '\r' | '\n'));
     let (m, lc) = lex_meaning(text, false);
     // every colliding predecessor is a candidate explanation; the most specific one names the class
     let rank = |c: &str| match c {
+        "non_grammar_whitespace_at_text_end" => 7,
+        "whitespace_in_string_literal_after_escape_sequence" => 6,
         "non_grammar_whitespace" => 5,
         "whitespace_in_string_literal" => 4,
         "line_comment_newline_collapsed" => 3,
@@ -337,18 +478,25 @@ fn collision_class(cur: &Value, earlier: &[&Value]) -> &'static str {
         _ => 0,
     };
     let mut class = "no_colliding_predecessor";
-    for e in earlier {
+    for (e, e_parsed) in earlier {
         let et = s(e, "s");
-        if et == text || collapse(et) != key {
+        if et == text || collapse(et) != key || (hit && !*e_parsed) {
             continue;
         }
         let (em, elc) = lex_meaning(et, false);
         let c = if em == m {
             "same_meaning_predecessor"
+        } else if (exotic_edge(text) || exotic_edge(et)) && lex_meaning(text.trim(), false).0 == lex_meaning(et.trim(), false).0 {
+            // the two differ only in what `str::trim` strips and the grammar does not
+            "non_grammar_whitespace_at_text_end"
         } else if exotic(text) != exotic(et) {
             "non_grammar_whitespace"
         } else if lex_meaning(text, true).0 == lex_meaning(et, true).0 {
-            "whitespace_in_string_literal"
+            if differs_after_escape(text, et) {
+                "whitespace_in_string_literal_after_escape_sequence"
+            } else {
+                "whitespace_in_string_literal"
+            }
         } else if lc || elc {
             "line_comment_newline_collapsed"
         } else {
@@ -405,7 +553,18 @@ impl Scenario for C03 {
         8
     }
     fn required_probes(&self, _tier: Tier) -> Vec<&'static str> {
-        vec!["cache_hit_by_different_text", "cache_evicted", "reinserted_after_eviction", "collision_with_different_meaning", "write_executed"]
+        vec![
+            "cache_hit_by_different_text",
+            "cache_evicted",
+            "reinserted_after_eviction",
+            "collision_with_different_meaning",
+            "write_executed",
+            "literal_varies_after_literal_with_escape",
+            "literal_varies_after_literal_ending_in_escaped_backslash",
+            "padded_text_after_clean_twin",
+            "clean_text_after_padded_twin",
+            "padded_text_refused_while_clean_twin_cached",
+        ]
     }
     fn generate(&self, s: &mut Streams, _run_index: u64, _tier: Tier) -> Case {
         let mut case = Case::new("C03");
@@ -414,7 +573,7 @@ impl Scenario for C03 {
         case.knobs.insert("capacity".into(), json!(cap));
         case.knobs.insert("clients".into(), json!(clients));
         let comments = s.knobs.chance(1, 3);
-        let style = Style {
+        let mut style = Style {
             kw_case: s.knobs.chance(1, 3),
             mixed_quotes: s.knobs.chance(1, 5),
             backticks: s.knobs.chance(1, 10),
@@ -428,15 +587,34 @@ impl Scenario for C03 {
             exotic_ws: s.knobs.chance(1, 8),
             lc_gap: if !comments && s.knobs.chance(1, 5) { 2 + s.knobs.usize_below(5) } else { 0 },
             opt_mask: if s.knobs.chance(2, 3) { s.knobs.next_u64() & s.knobs.next_u64() } else { 0 },
+            exotic_edge: s.knobs.chance(1, 6),
+            decor: if s.knobs.chance(1, 3) {
+                (0..3).map(|_| if s.knobs.chance(2, 3) { 1 + s.knobs.usize_below(DECOR.len()) } else { 0 }).collect()
+            } else {
+                vec![]
+            },
+            slot_quotes: if s.knobs.chance(1, 8) { (0..3).map(|_| s.knobs.usize_below(3)).collect() } else { vec![] },
         };
-        case.knobs.insert("style".into(), json!({"kw_case":style.kw_case,"mixed_quotes":style.mixed_quotes,"backticks":style.backticks,"swallow":style.swallow,"plain_gaps":style.plain_gaps,"small_ints":style.small_ints,"comments":style.comments,"opt_gaps":style.opt_gaps,"fam_lo":style.fam_lo,"fam_n":style.fam_n,"exotic_ws":style.exotic_ws,"lc_gap":style.lc_gap,"opt_mask":style.opt_mask}));
+        if !style.decor.is_empty() && s.knobs.chance(1, 2) {
+            // near-duplicates that differ *only* inside literals
+            style.plain_gaps = true;
+            style.kw_case = false;
+            style.lc_gap = 0;
+        }
+        case.knobs.insert("style".into(), json!({"kw_case":style.kw_case,"mixed_quotes":style.mixed_quotes,"backticks":style.backticks,"swallow":style.swallow,"plain_gaps":style.plain_gaps,"small_ints":style.small_ints,"comments":style.comments,"opt_gaps":style.opt_gaps,"fam_lo":style.fam_lo,"fam_n":style.fam_n,"exotic_ws":style.exotic_ws,"lc_gap":style.lc_gap,"opt_mask":style.opt_mask,"exotic_edge":style.exotic_edge,"decor":style.decor,"slot_quotes":style.slot_quotes}));
         // pool of base statements; one family per run most of the time so literals collide
         let nb = 2 + s.knobs.usize_below(3);
         let fam0 = s.knobs.usize_below(FAMILIES.len());
+        // with escape decorations most statements of the pool carry two or more literals
+        let multi = !style.decor.is_empty();
         let mut pool: Vec<Base> = Vec::new();
         for i in 0..nb {
             let write = if i == 0 { true } else { s.knobs.chance(1, 3) };
-            let template = if write { WRITES[s.knobs.usize_below(WRITES.len())] } else { READS[s.knobs.usize_below(READS.len())] };
+            let mut template = if write { WRITES[s.knobs.usize_below(WRITES.len())] } else { READS[s.knobs.usize_below(READS.len())] };
+            if multi && !template.contains("§1") && s.knobs.chance(2, 3) {
+                let m: Vec<&'static str> = if write { WRITES.iter() } else { READS.iter() }.copied().filter(|t| t.contains("§1")).collect();
+                template = m[s.knobs.usize_below(m.len())];
+            }
             let family = if s.knobs.chance(4, 5) { fam0 } else { s.knobs.usize_below(FAMILIES.len()) };
             pool.push(Base { write, template, family });
         }
@@ -477,15 +655,17 @@ impl Scenario for C03 {
         let mut near_dup_hit = false;
         let mut reinsertion = false;
         let mut keyseq: Vec<String> = Vec::new();
+        let mut parsed: Vec<bool> = Vec::new(); // per event: did the fresh parse accept it
         for (step, ev) in case.events.iter().enumerate() {
             if op(ev) != "q" {
+                parsed.push(false);
                 continue;
             }
             let text = s(ev, "s").to_string();
             let write = ev.get("w").and_then(|x| x.as_bool()).unwrap_or(false);
             let key = collapse(&text);
             keyseq.push(key.clone());
-            let earlier: Vec<&Value> = case.events[..step].iter().filter(|e| op(e) == "q").collect();
+            let earlier: Vec<(&Value, bool)> = case.events[..step].iter().zip(parsed.iter().copied()).filter(|(e, _)| op(e) == "q").collect();
             let hits0 = engine.cache_stats().hits();
             let misses0 = engine.cache_stats().misses();
             // A panic inside the engine (e.g. `RETURN size()`: index out of bounds in
@@ -503,6 +683,7 @@ impl Scenario for C03 {
             // ---- fresh side
             let pq = parse_query(&text);
             let parsed_ok = pq.is_ok();
+            parsed.push(parsed_ok);
             let rb = match pq {
                 Err(e) => Err(e.to_string()),
                 Ok(q) => catch_unwind(AssertUnwindSafe(|| {
@@ -546,9 +727,30 @@ impl Scenario for C03 {
                 lru.retain(|k| k != &key);
                 lru.push(key.clone());
             }
-            let cclass = collision_class(ev, &earlier);
-            if cclass == "whitespace_in_string_literal" || cclass == "line_comment_newline_collapsed" || cclass == "other_collision" || cclass == "non_grammar_whitespace" {
+            let cclass = collision_class(ev, &earlier, hit);
+            if cclass == "whitespace_in_string_literal" || cclass == "line_comment_newline_collapsed" || cclass == "other_collision" || cclass == "non_grammar_whitespace" || cclass == "whitespace_in_string_literal_after_escape_sequence" || cclass == "non_grammar_whitespace_at_text_end" {
                 o.probe("collision_with_different_meaning");
+            }
+            if cclass == "whitespace_in_string_literal_after_escape_sequence" {
+                // near-duplicates that differ only inside a literal which follows a literal with
+                // an escape sequence; the sharper probe: that literal *ends* in an escaped backslash
+                o.probe("literal_varies_after_literal_with_escape");
+                let ls = lits(&text);
+                if ls.iter().take(ls.len().saturating_sub(1)).any(|l| l.strip_suffix(['\'', '"']).map(|x| x.ends_with("\\\\")).unwrap_or(false)) {
+                    o.probe("literal_varies_after_literal_ending_in_escaped_backslash");
+                }
+            }
+            if cclass == "non_grammar_whitespace_at_text_end" {
+                // which of the two came first matters: only a cached clean spelling can answer
+                // for the padded one
+                if exotic_edge(&text) {
+                    o.probe("padded_text_after_clean_twin");
+                    if !hit && !parsed_ok && lru.contains(&key) {
+                        o.probe("padded_text_refused_while_clean_twin_cached");
+                    }
+                } else {
+                    o.probe("clean_text_after_padded_twin");
+                }
             }
             if text.contains('`') && rb.is_err() {
                 o.probe("backtick_refused");
